@@ -46,7 +46,7 @@ SLICES = 4
 OCC = ['first', 'second', 'middle', 'last-but-one', 'last']
 SEAM_ERRORS = {
     'pysam.sort': ['SamtoolsError', 'SamtoolsError+partial'], 'pysam.index': ['SamtoolsError'], 'pysam.merge': ['SamtoolsError', 'SamtoolsError+partial'], 'pysam.idxstats': ['SamtoolsError'],
-    'AlignmentFile.write': ['OSError:ENOSPC', 'OSError:EIO'], 'AlignmentFile.close': ['OSError:ENOSPC'],
+    'AlignmentFile.read': ['OSError:EIO'], 'AlignmentFile.write': ['OSError:ENOSPC', 'OSError:EIO'], 'AlignmentFile.close': ['OSError:ENOSPC'],
     'os.rename': ['OSError:ENOSPC', 'OSError:EACCES'], 'os.remove': ['OSError:EACCES'], 'move': ['OSError:ENOSPC'], 'shutil.rmtree': ['OSError:EACCES'],
 }
 
